@@ -4,7 +4,10 @@ package main
 
 import (
 	"bufio"
+	"bytes"
+	"encoding/base64"
 	"fmt"
+	"io/ioutil"
 	"math"
 	"os"
 	"path/filepath"
@@ -16,6 +19,8 @@ import (
 	"testing"
 	"time"
 
+	"git.torproject.org/pluggable-transports/snowflake.git/v2/common/ipsetsink"
+	"git.torproject.org/pluggable-transports/snowflake.git/v2/common/ipsetsink/sinkcluster"
 	"git.torproject.org/pluggable-transports/snowflake.git/v2/common/verifhook"
 	"github.com/prometheus/client_golang/prometheus"
 	dto "github.com/prometheus/client_model/go"
@@ -581,8 +586,128 @@ func TestVerifC19Binary(t *testing.T) {
 		}(i)
 	}
 	wg.Wait()
+	nj := vlib.Scale(6, 48)
+	for i := 0; i < nj; i++ {
+		if i%nshards != shard {
+			continue
+		}
+		wg.Add(1)
+		go func(i int) {
+			defer wg.Done()
+			sem <- struct{}{}
+			c19JournalBinary(res, root.SplitN("journal", i), 900+i)
+			<-sem
+		}(i)
+	}
+	wg.Wait()
 	res.RequireObs("accounting_cases", int64(n/nshards*7/10))
 	res.RequireObs("counts_not_multiple_of_8", 5)
 	res.RequireObs("prometheus_samples_checked", 30)
 	res.RequireObs("binary_broker_processes", 1)
+	res.RequireObs("journal_binary_cases_exact", int64(nj/nshards*7/10))
+}
+
+// c19JournalBinary: a broker process started with -ip-count-log (50 ms chunks,
+// known key) receives proxy polls from K distinct 127.0.0.0/8 source addresses
+// with repetitions, in two bursts separated by more than the chunk interval; a
+// final poll from one more address makes the writer flush what came before.
+// The journal file written by the process, read back with the exported
+// ClusterCounter over a window containing all chunks, must estimate exactly K
+// distinct addresses (small sets are exact) and must not contain address text.
+func c19JournalBinary(res *vlib.Result, r *vlib.Rand, id int) {
+	name := fmt.Sprintf("journal-binary/%d", id)
+	b := newVBrokerBinary(id, nil, "", "", vBinOpts{IPCount: true})
+	b.bin.abandonOK = true // the idle polls (10 s each) are not waited for
+	defer b.stop(res, "C19")
+	t0 := time.Now().Add(-time.Hour)
+	k := r.PickInt([]int{1, 2, 3, 7, 8, 9, 20, 40})
+	addrs := map[string]bool{}
+	var list []string
+	for len(list) < k {
+		a := fmt.Sprintf("127.%d.%d.%d", 1+r.Intn(200), r.Intn(250), 2+r.Intn(250))
+		if !addrs[a] {
+			addrs[a] = true
+			list = append(list, a)
+		}
+	}
+	fire := func(a string, n int) {
+		for j := 0; j < n; j++ {
+			sid := fmt.Sprintf("j%d-%s-%d-%x", id, a, j, r.Uint64())
+			ps := &pollSpec{Sid: sid, Type: r.PickString(typeChoices), NAT: r.PickString(natChoices), Remote: a + ":1"}
+			go b.poll(ps) // the poll itself waits up to 10 s for a client; the address is recorded on arrival
+		}
+	}
+	half := (k + 1) / 2
+	for _, a := range list[:half] {
+		fire(a, r.Range(1, 3))
+	}
+	time.Sleep(150 * time.Millisecond)
+	for _, a := range list[half:] {
+		fire(a, r.Range(1, 3))
+	}
+	if r.Bool() && k > 1 {
+		fire(list[0], 1) // a repetition across chunks
+	}
+	time.Sleep(400 * time.Millisecond)
+	flusher := "127.250.250.250"
+	go b.poll(&pollSpec{Sid: fmt.Sprintf("j%d-flusher", id), Type: "standalone", NAT: NATUnknown, Remote: flusher + ":1"})
+	jpath := filepath.Join(b.bin.dir, "ipcount.log")
+	var data []byte
+	ok := waitUntil(10*time.Second, func() bool {
+		d, err := ioutil.ReadFile(jpath)
+		if err != nil || len(d) == 0 || d[len(d)-1] != '\n' {
+			return false
+		}
+		// every address of the last burst must have been handled: the flusher's chunk
+		// line appears only after them (one goroutine per connection, so wait until the
+		// file stopped growing for 300 ms)
+		time.Sleep(300 * time.Millisecond)
+		d2, _ := ioutil.ReadFile(jpath)
+		data = d2
+		return len(d2) == len(d)
+	})
+	rec := map[string]interface{}{"case": name, "distinct_addresses": k, "addresses": list}
+	res.Eval(1)
+	if !ok {
+		res.Inconcl(name + ": the broker process wrote no journal chunk within 10 s")
+		return
+	}
+	cnt, err := sinkcluster.NewClusterCounter(t0, time.Now().Add(time.Hour)).Count(bytes.NewReader(data))
+	if err != nil {
+		res.Violatef("journal:binary:unreadable", rec, "%s: the journal written by the broker process cannot be counted: %v", name, err)
+		return
+	}
+	rec["chunks"] = cnt.ChunkIncluded
+	rec["estimate"] = cnt.Sum
+	res.Obs("journal_binary_chunks", cnt.ChunkIncluded)
+	for _, a := range append(list, flusher) {
+		if bytes.Contains(data, []byte(a)) {
+			res.Violatef("journal:binary:address-in-clear", rec, "%s: the journal contains the address text %q", name, a)
+		}
+	}
+	if int(cnt.Sum) != k {
+		// exclude the (rare, deterministic) case where the sketch itself cannot tell the
+		// addresses apart: the same set fed into a fresh sink with the same key
+		ref := ipsetsink.NewIPSetSink("verif-key")
+		for _, a := range list {
+			ref.AddIPToSet(a)
+		}
+		dump, _ := ref.Dump()
+		var buf bytes.Buffer
+		buf.WriteString(`{"recordingStart":"2000-01-01T00:00:00Z","recordingEnd":"2000-01-01T00:00:01Z","recorded":"`)
+		buf.WriteString(base64.StdEncoding.EncodeToString(dump))
+		buf.WriteString("\"}\n")
+		rc, rerr := sinkcluster.NewClusterCounter(time.Time{}, time.Now()).Count(&buf)
+		if rerr == nil && int(rc.Sum) != k {
+			res.Obs("journal_binary_cases_with_sketch_collision", 1)
+			return
+		}
+		res.Violatef("journal:binary:estimate-differs-from-distinct-addresses", rec, "%s: %d distinct source addresses polled the broker process; its journal (%d chunks) is counted as %d", name, k, cnt.ChunkIncluded, cnt.Sum)
+		return
+	}
+	res.Obs("journal_binary_cases_exact", 1)
+	res.Distinct(name)
+	if id%7 == 0 {
+		res.Sample(1, rec)
+	}
 }
